@@ -202,6 +202,12 @@ class SymArange:
     def __len__(self):
         raise st.Untraceable("len() of a symbolic arange (use .size)")
 
+    def copy(self, *a, **kw):
+        return self
+
+    def astype(self, dtype, *a, **kw):
+        return SymArange(self.start, self.step, self._size, dtype)
+
     def __getitem__(self, i):
         if isinstance(i, slice):
             if i == slice(None, -1, None):
